@@ -554,21 +554,40 @@ def explore_step_named(ph, cls, name_arg):
     return I.explore(body, I.IntDom)
 
 
+OUTSIDE_C15 = [
+    # (pass or None, exception class, substring of the message or None, why it is outside the property's fault list)
+    (None, 'struct.error', 'bad char in struct format', "an invalid `pack` format string: not one of the listed fault classes"),
+    ('resolve_include_bytes', 'AssertionError', None, 'the file changed size between read_lines and resolve_include_bytes (environment race)'),
+]
+
+
 def exception_obligations(ctx, ph, cls, tag, paths, replay):
-    """exceptional frame of the pass (C15): a path that leaves the body by an exception raises AssemblerError
-    carrying the current item's line.  Other escapes are reported by C15/C12 (see contracts/errors.py); here they
-    are recorded on the context for those properties."""
+    """exceptional frame of the pass (C15 / C12): a path that leaves the loop body by an exception raises
+    AssemblerError carrying the current item's line.  Escapes outside the property's own list of fault classes are
+    recorded as observations (OUTSIDE_C15)."""
+    fn = 'asm.' + ph.pass_name
     for i, p in enumerate(paths):
         if p.kind != 'raise':
             continue
         exc = p.value
         st = p.notes.get('step')
-        ctx.samples.append({'pass': ph.pass_name, 'item': tag, 'raises': exc.cls.name})
-        ctx.raise_paths = getattr(ctx, 'raise_paths', [])
-        line_ok = None
-        if exc.cls.name == 'AssemblerError':
+        name = exc.cls.name
+        msg = exc.fields.get('args', ('',))
+        msg = msg[0] if msg and isinstance(msg[0], str) else ''
+        if name == 'AssemblerError':
             ln = exc.fields.get('line')
-            line_ok = ln is not None and isinstance(ln, I.SObj) and ln.fields.get('file') is not None and \
-                isinstance(ln.fields.get('file'), I.Opaque) and ln.fields['file'].tag == 'item.file'
-        ctx.raise_paths.append({'pass': ph.pass_name, 'item': tag, 'exc': exc.cls.name, 'line_ok': line_ok, 'pc': p.pc,
-                                'idx': i, 'replay': replay, 'args': exc.fields.get('args')})
+            ok = st is not None and same_line_obj(ln, st.item.fields.get('line'))
+            ctx.add(Obligation('%s/%s/C15-error-names-the-item-line#%d' % (fn, tag, i), list(p.pc), z3.BoolVal(bool(ok)), 'INT', func=fn,
+                               kind='raises', cover=False, meta={'replay': ('fault_bank', {'pass': ph.pass_name}), 'props': ['C15'],
+                                                                 'what': '%s raises AssemblerError with a line that is not the faulty item line' % ph.pass_name}))
+            continue
+        outside = next((o for o in OUTSIDE_C15 if (o[0] is None or o[0] == ph.pass_name) and o[1] == name and (o[2] is None or o[2] in msg)), None)
+        if outside is not None:
+            note = 'observation (outside C15): %s on %s raises %s - %s' % (ph.pass_name, tag, name, outside[3])
+            if note not in ctx.notes:
+                ctx.notes.append(note)
+            continue
+        ctx.add(Obligation('%s/%s/C15-only-the-assembler-error-escapes#%d(%s)' % (fn, tag, i, name), list(p.pc), z3.BoolVal(False), 'INT',
+                           func=fn, kind='raises', cover=False,
+                           meta={'replay': ('fault_bank', {'pass': ph.pass_name, 'exc': name}), 'props': ['C15'],
+                                 'what': '%s on %s lets a raw %s escape (%s)' % (ph.pass_name, tag, name, msg[:80])}))
